@@ -200,8 +200,15 @@ func (vc *FnVC) instr(in ssa.Instruction, idx int) {
 			vc.addRange(tv)
 			vc.vals[in] = Term{Sort: "Tuple", Tup: []Term{tv, {S: ok, Sort: "Bool"}}}
 		} else {
-			vc.defineFresh(in)
 			vc.assume("type assertions without comma-ok are assumed to succeed")
+			switch in.AssertedType.Underlying().(type) {
+			case *types.Pointer, *types.Interface, *types.Map, *types.Chan, *types.Signature:
+				// boxing of pointer-like values is the identity in this model
+				x := vc.val(in.X)
+				vc.vals[in] = Term{S: x.S, Sort: "Int", T: in.Type()}
+			default:
+				vc.defineFresh(in)
+			}
 		}
 	case *ssa.Extract:
 		t := vc.val(in.Tuple)
